@@ -8,5 +8,6 @@ fi
 bash ./setup.sh || exit 2
 for id in C01 C02 C03 C04 C05 C06 C07 C08 C09 C10 C11 C12 C14 C15 C16 C13; do
   echo "=== $id thorough seed $SEED"
-  VERIF_SEED=$SEED ./check $id --tier thorough --jobs $JOBS --no-build 2>&1 | grep -v "^KNOWN" | tail -6 | cut -c1-700
+  NB=--no-build; [ $id = C13 ] && NB=   # C13 thorough also needs the debug and asan profiles
+  VERIF_SEED=$SEED ./check $id --tier thorough --jobs $JOBS $NB 2>&1 | grep -v "^KNOWN" | tail -6 | cut -c1-700
 done
